@@ -194,6 +194,43 @@ static void adpcm_case (int codec /* 0 WAV IMA, 1 AIFF IMA, 2 MS */, int contain
 	free (got) ; free (ref) ; mv_free (&m) ;
 }
 
+/* ---- G.721 / G.723: the limits ITU-T G.726 puts on the predictor and scale-factor state hold for every code stream and every input signal.
+** (No independent reference decoder: encoder and decoder share update(), so round trips are blind to a wrong limiter; the state limits are
+** part of the published definition and are observed by a read-only hook in update().) */
+extern long sf_verif_g72x_limit_violations ;
+static void g72x_case (int format, int bits, int kind)
+{	MEMF m ; SNDFILE *s ; SF_INFO ri ; SF_VERIF_STATE st ; const char *fn = vh_fname (format) ; long N = 120 * 40, i, nbytes ; short *pcm = malloc (sizeof (short) * (N + 256)) ; long before = sf_verif_g72x_limit_violations ;
+	/* (a) decode an adversarial code stream */
+	for (i = 0 ; i < N ; i++) pcm [i] = (short) (3000 * sin (i * 0.05)) ;
+	memset (&m, 0, sizeof (m)) ; s = vh_open_w (&m, format, 1, 8000, NULL) ; if (!s) { free (pcm) ; return ; }
+	sf_write_short (s, pcm, N) ; sf_close (s) ;
+	s = vh_open_r (&m, format, 1, 8000, &ri) ; if (!s) { free (pcm) ; mv_free (&m) ; return ; }
+	vh_state (s, &st) ; sf_close (s) ;
+	nbytes = (long) (m.len - st.dataoffset) ;
+	{	unsigned char *d = m.d + st.dataoffset ; uint64_t acc = 0 ; int nb = 0 ; long o = 0, k = 0 ; int maxmag = (1 << (bits - 1)) - 1, sign = 1 << (bits - 1) ;
+		int runlen = 1 + kind % 37, altlen = 1 + (kind / 37) % 29, mag = maxmag - (kind / 1073) % (maxmag > 1 ? 3 : 1) ;
+		while (o < nbytes)
+		{	int code ;
+			if (kind % 5 == 4) code = (int) (vh_rnd () & ((1u << bits) - 1)) ;												/* random codes */
+			else { long ph = k % (runlen + altlen) ; code = ph < runlen ? mag : ((ph - runlen) & 1) ? (mag | sign) : mag ; if ((k / (runlen + altlen)) & 1 && kind % 5 == 3) code ^= sign ; }
+			k++ ; acc |= (uint64_t) code << nb ; nb += bits ;
+			while (nb >= 8 && o < nbytes) { d [o++] = (unsigned char) (acc & 0xff) ; acc >>= 8 ; nb -= 8 ; }
+			} }
+	s = vh_open_r (&m, format, 1, 8000, &ri) ;
+	if (s) { sf_count_t g ; while ((g = sf_read_short (s, pcm, 256)) > 0) ; sf_close (s) ; vh_stat ("g72x_streams_decoded", 1) ; }
+	mv_free (&m) ;
+	/* (b) encode an extreme signal */
+	for (i = 0 ; i < N ; i++)
+	{	int per = 2 + kind % 61 ; double v ;
+		switch (kind % 4) { case 0 : v = ((i / per) & 1) ? 1.0 : -1.0 ; break ; case 1 : v = ((int) (vh_rnd () % 65536) - 32768) / 32768.0 ; break ; case 2 : v = (i % (3 * per) < per) ? 0.999 : ((i & 1) ? -0.999 : 0.999) ; break ; default : v = sin (i * 0.7 * (1 + kind % 9)) ; }
+		pcm [i] = (short) (v * 32767) ; }
+	memset (&m, 0, sizeof (m)) ; s = vh_open_w (&m, format, 1, 8000, NULL) ;
+	if (s) { sf_write_short (s, pcm, N) ; sf_close (s) ; vh_stat ("g72x_signals_encoded", 1) ; }
+	mv_free (&m) ; free (pcm) ;
+	if (sf_verif_g72x_limit_violations != before)
+		vh_viol (vh_key ("C20|g72x-state-limits|%s", fn), "pattern %d: the predictor / scale-factor state left the range G.726 prescribes (|a2| <= 0.75, |a1| <= 15/16 - a2, 544 <= yu <= 5120) %ld times", kind, sf_verif_g72x_limit_violations - before) ;
+}
+
 int main (int argc, char **argv)
 {	uint32_t blk ; int big, e, sgn, k ;
 	vh_init (argc, argv, "c20_codec_kernels", "C20") ;
@@ -214,6 +251,10 @@ int main (int argc, char **argv)
 			if (vh_case ("W64 MS rate=%d ch=%d pattern=%d", rates [r], ch, kind)) { vh_distinct (0x700000000ULL | (r << 20) | (ch << 16) | kind) ; adpcm_case (2, SF_FORMAT_W64, ch, rates [r], kind) ; }
 			if (r == 0 && vh_case ("AIFF IMA ch=%d pattern=%d", ch, kind)) { vh_distinct (0x800000000ULL | (ch << 16) | kind) ; adpcm_case (1, SF_FORMAT_AIFF, ch, 8000, kind) ; }
 			}
+		}
+	{	static const int gf [][2] = { { SF_FORMAT_AU | SF_FORMAT_G721_32, 4 }, { SF_FORMAT_AU | SF_FORMAT_G723_24, 3 }, { SF_FORMAT_AU | SF_FORMAT_G723_40, 5 }, { SF_FORMAT_WAV | SF_FORMAT_G721_32, 4 } } ; int g, kind, nk = vh_thorough ? 6000 : 800 ;
+		for (g = 0 ; g < 4 ; g++) for (kind = 0 ; kind < nk ; kind++)
+			if (vh_case ("%s state limits pattern=%d", vh_fname (gf [g][0]), kind)) { vh_distinct (0x900000000ULL | ((uint64_t) g << 20) | kind) ; if (kind == 1) vh_sample ("%s: code streams of runs of equal-sign codes followed by alternating-sign codes (run lengths 1..37 x 1..29, three magnitudes, random codes) decoded, extreme signals encoded; G.726 state limits observed in update()", vh_fname (gf [g][0])) ; g72x_case (gf [g][0], gf [g][1], kind) ; }
 		}
 	return vh_finish () ;
 }
